@@ -1,8 +1,7 @@
 SPECIFICATION Spec
 INVARIANT C01_Run
 INVARIANT C02_Run
-INVARIANT C06_Class
-INVARIANT C06_FirstBad
+INVARIANT C06_Run
 INVARIANT C07_Value
 INVARIANT C08_Agree
 INVARIANT C05_Agree
